@@ -138,3 +138,47 @@ Theorem C16_source_box_methods :
   methods_of "IntoIterator for Box<GenericArray<T,N>>" = Some ["into_iter"] /\
   methods_of "FromIterator<T> for Box<GenericArray<T,N>>" = Some ["from_iter"].
 Proof. repeat split. Qed.
+
+(* ---- T3: every other function of src/impl_alloc.rs the scenarios are made of, AS REGENERATED (coq/gen/GenHeap.v,
+        run by the interpreter of HeapProg.v over the allocator model): same result, same allocator calls (request
+        sizes and alignments, releases with the layout of the request), same element events as the hub functions
+        of HeapOps.v that the theorems above quantify over -- from every allocator state, for every length and
+        element layout ---- *)
+From GA Require HeapProg HeapTie.
+
+Theorem C16_source_heap_functions : forall fails T N b s v a st,
+  (zlen (bel b) = Z.of_nat N ->
+   HeapProg.call fails T N gen_heap_table "into_boxed_slice" (HeapProg.VBoxA b) st =
+     (s <- into_boxed_slice b ;; ret (HeapProg.VBoxS s)) st /\
+   HeapProg.call fails T N gen_heap_table "into_vec" (HeapProg.VBoxA b) st =
+     (v <- into_vec b ;; ret (HeapProg.VVecV v)) st) /\
+  HeapProg.call fails T N gen_heap_table "try_from_boxed_slice" (HeapProg.VBoxS s) st =
+    (r <- try_from_boxed_slice T N s ;; ret (HeapTie.opt_box r)) st /\
+  HeapProg.call fails T N gen_heap_table "try_from_vec" (HeapProg.VVecV v) st =
+    (r <- try_from_vec fails T N v ;; ret (HeapTie.opt_box r)) st /\
+  HeapProg.call fails T N gen_heap_table "TryFrom<Vec<T>>" (HeapProg.VVecV v) st =
+    (r <- vec_to_array T N v ;; ret (HeapTie.opt_arr r)) st /\
+  HeapProg.call fails T N gen_heap_table "TryFrom<Box<[T]>>" (HeapProg.VBoxS s) st =
+    (r <- boxed_slice_to_array T N s ;; ret (HeapTie.opt_arr r)) st /\
+  (zlen a = Z.of_nat N ->
+   HeapProg.call fails T N gen_heap_table "From<GenericArray> for Box<[T]>" (HeapProg.VArrV a) st =
+     (s <- array_to_boxed_slice fails T a ;; ret (HeapProg.VBoxS s)) st /\
+   HeapProg.call fails T N gen_heap_table "From<GenericArray> for Vec<T>" (HeapProg.VArrV a) st =
+     (v <- array_to_vec fails T a ;; ret (HeapProg.VVecV v)) st).
+Proof.
+  exact (fun fails T N b s v a st =>
+    conj (fun H => conj (HeapTie.tie_into_boxed_slice fails T N b st H) (HeapTie.tie_into_vec fails T N b st H))
+    (conj (HeapTie.tie_try_from_boxed_slice fails T N s st)
+    (conj (HeapTie.tie_try_from_vec fails T N v st)
+    (conj (HeapTie.tie_vec_to_array fails T N v st)
+    (conj (HeapTie.tie_boxed_slice_to_array fails T N s st)
+    (fun H => conj (HeapTie.tie_array_to_boxed_slice fails T N a st H) (HeapTie.tie_array_to_vec fails T N a st H))))))).
+Qed.
+
+(* try_boxed_from_iter (boxed collect, boxed map / zip go through it) as regenerated: the size-hint pre-checks, the
+   Vec::with_capacity(N) + extend(take(N)) + one more poll, and the conversion of exactly N items *)
+From GA Require Collect CollectTie.
+From GAGen Require GenCollect.
+Theorem C16_source_try_boxed_from_iter : forall N (s : Builder.src),
+  Collect.run_collect N s GenCollect.gen_extend GenCollect.gen_try_boxed_from_iter = Some (Builder.try_boxed_from_iter N s).
+Proof. exact CollectTie.tie_try_boxed_from_iter. Qed.
